@@ -3,8 +3,8 @@
 From Coq Require Import ZArith NArith List Bool Lia.
 Import ListNotations.
 From PG Require Import Common.Tactics Model.SymCoreDefs Model.SymCoreOps Model.SymCoreSpec Model.SymCoreC02
-     Proofs.SymCoreBase Proofs.SymCoreWF Proofs.SymCoreWFOps Proofs.SymCoreClone Proofs.SymCoreC08 Proofs.SymCoreC02Read
-     Proofs.SymCoreC02Frame Proofs.SymCoreC02Prim Proofs.SymCoreC02List Proofs.SymCoreC02Dict.
+     Proofs.SymCoreBase Proofs.SymCoreWF Proofs.SymCoreWFOps Proofs.SymCoreClone Proofs.SymCoreIds Proofs.SymCoreC08 Proofs.SymCoreC02Read
+     Proofs.SymCoreC02Frame Proofs.SymCoreC02Prim Proofs.SymCoreC02List Proofs.SymCoreC02Items Proofs.SymCoreC02Dict.
 From PG Require Model.PyList Model.PyDict.
 Local Open Scope Z_scope.
 
@@ -61,14 +61,12 @@ Definition vlop_of (o : op value) : option (PyList.lop pv) :=
   | LCopy => Some PyList.PLCopy
   | _ => None
   end.
-Definition is_pleaf (p : pv) : bool := match p with PLeaf _ => true | PNode _ _ => false end.
-(* a plain list operation: plain arguments (l * n / l *= n: on a list of leaves) *)
-Definition vplain_lop (l : list pv) (o : op value) : bool :=
+(* a plain list operation: plain arguments *)
+Definition vplain_lop (o : op value) : bool :=
   match o with
   | LSet _ v | LAppend v | LInsert _ v => vplain v
   | LExtend vs | LIAdd vs | LAdd vs => forallb vplain vs
-  | LIMul _ | LMul _ => forallb is_pleaf l
-  | LDel _ | LPop _ | LRemove _ | LClear | LReverse | LSort _ _ | LCopy => true
+  | LIMul _ | LMul _ | LDel _ | LPop _ | LRemove _ | LClear | LReverse | LSort _ _ | LCopy => true
   | _ => false
   end.
 Definition vdop_of (o : op value) : option (PyDict.dop key pv) :=
@@ -92,17 +90,11 @@ Definition vplain_dop (o : op value) : bool :=
   | _ => false
   end.
 
-Lemma flat_of_evals : forall its, forallb is_pleaf (evals its) = true -> flat its.
+Lemma resolve_lop : forall st o lo, vplain_lop o = true -> vlop_of o = Some lo ->
+  exists ro, resolve_op st o = Some ro /\ plain_lop' ro /\ lop_of ro = Some lo /\ kind_ok KList ro = true.
 Proof.
-  unfold flat. induction its as [|[k c] its IH]; simpl; intros; auto. apply andb_true_iff in H. destruct H.
-  constructor; auto. destruct c; simpl in *; auto; discriminate.
-Qed.
-
-Lemma resolve_lop : forall st its o lo, vplain_lop (evals its) o = true -> vlop_of o = Some lo ->
-  exists ro, resolve_op st o = Some ro /\ plain_lop its ro /\ lop_of ro = Some lo /\ kind_ok KList ro = true.
-Proof.
-  intros st its o lo P L. destruct o; simpl in P, L; try discriminate; inv L;
-    try (eexists; split; [reflexivity|]; simpl; repeat split; auto using flat_of_evals; fail).
+  intros st o lo P L. destruct o; simpl in P, L; try discriminate; inv L;
+    try (eexists; split; [reflexivity|]; simpl; repeat split; auto; fail).
   - destruct (resolve_plain st v P) as (rv & R & PR & E). exists (LSet i rv). simpl. rewrite R. simpl. rewrite E. auto.
   - destruct (resolve_plain st v P) as (rv & R & PR & E). exists (LAppend rv). simpl. rewrite R. simpl. rewrite E. auto.
   - destruct (resolve_plain st v P) as (rv & R & PR & E). exists (LInsert i rv). simpl. rewrite R. simpl. rewrite E. auto.
@@ -135,8 +127,8 @@ Variables (q : quirks) (ps : pos) (tid : N) (pa : option N) (fl : flags).
 Hypothesis NQ : no_quirks q.
 
 Theorem step_list_refines : forall st its sc o lo,
-  wfs st -> at_is st ps tid KList pa fl its -> clean its -> anc_clean st ps -> permits sc fl ->
-  vplain_lop (evals its) o = true -> vlop_of o = Some lo ->
+  WFI st -> at_is st ps tid KList pa fl its -> clean its -> anc_clean st ps -> permits sc fl ->
+  vplain_lop o = true -> vlop_of o = Some lo ->
   exists its',
     at_is (fst (step q st (mkSop sc ps o))) ps tid KList pa fl its' /\ clean its' /\ anc_clean (fst (step q st (mkSop sc ps o))) ps /\
     evals its' = PyList.lstate pv_pyeq (evals its) lo /\
@@ -146,13 +138,13 @@ Theorem step_list_refines : forall st its sc o lo,
                    match py_lstep (evals its) lo with inl (_, ret) => ret_agrees st1 (snd (step q st (mkSop sc ps o))) ret | inr _ => True end.
 Proof.
   intros st its sc o lo W R C A PM P L.
-  destruct (resolve_lop st its o lo P L) as (ro & RO & PL & LO & KO).
+  destruct (resolve_lop st o lo P L) as (ro & RO & PL & LO & KO).
   assert (G : get_at st (o_pos (mkSop sc ps o)) = Some (Node tid KList pa (snd ps) fl its)) by exact R.
   assert (KO' : kind_ok KList (o_op (mkSop sc ps o)) = true).
   { simpl. destruct o; simpl in *; try discriminate; auto; destruct (resolve st v); simpl in RO; inv RO; auto. }
   rewrite (step_unfold q st _ tid KList pa (snd ps) fl its ro G KO' RO). simpl.
   destruct (exec q sc st ps tid KList (snd ps) fl its ro) as [st1 out] eqn:E. simpl.
-  pose proof (exec_list_refines q sc ps tid pa fl NQ st its ro lo st1 out W R C A PM PL LO E) as H.
+  pose proof (exec_list_refines_wf q sc ps tid pa fl NQ st its ro lo st1 out W R C A PM PL LO E) as H.
   pose proof (get_at_lt _ _ _ R) as LT.
   unfold PyList.lstate. fold (py_lstep (evals its) lo).
   destruct (py_lstep (evals its) lo) as [[l' ret]|e].
@@ -207,7 +199,7 @@ Fixpoint lhist_ok (fl : flags) (l : list pv) (h : list (scope * op value)) : Pro
   match h with
   | [] => True
   | (sc, o) :: h' =>
-      permits sc fl /\ vplain_lop l o = true /\
+      permits sc fl /\ vplain_lop o = true /\
       exists lo, vlop_of o = Some lo /\ lhist_ok fl (PyList.lstate pv_pyeq l lo) h'
   end.
 Fixpoint lhist_py (l : list pv) (h : list (scope * op value)) : list pv :=
@@ -234,18 +226,18 @@ Variables (q : quirks) (ps : pos) (tid : N) (pa : option N) (fl : flags).
 Hypothesis NQ : no_quirks q.
 
 Theorem history_list_refines : forall h st its,
-  wfs st -> at_is st ps tid KList pa fl its -> clean its -> anc_clean st ps -> lhist_ok fl (evals its) h ->
+  WFI st -> at_is st ps tid KList pa fl its -> clean its -> anc_clean st ps -> lhist_ok fl (evals its) h ->
   exists its', at_is (run_ops q st (on_pos ps h)) ps tid KList pa fl its' /\ clean its' /\ anc_clean (run_ops q st (on_pos ps h)) ps /\
-               wfs (run_ops q st (on_pos ps h)) /\ evals its' = lhist_py (evals its) h.
+               WFI (run_ops q st (on_pos ps h)) /\ evals its' = lhist_py (evals its) h.
 Proof.
   induction h as [|[sc o] h IH]; intros st its W R C A OK; simpl in *.
   - exists its; auto.
   - destruct OK as (PM & P & lo & L & OK'). rewrite L.
     destruct (step_list_refines q ps tid pa fl NQ st its sc o lo W R C A PM P L) as (its1 & R1 & C1 & A1 & E1 & _).
     unfold stepS at 1. fold (run_ops q).
-    assert (W1 : wfs (fst (step q st (mkSop sc ps o)))) by (apply step_wfs; auto).
+    assert (W1 : WFI (fst (step q st (mkSop sc ps o)))) by (apply step_WFI; auto).
     rewrite <- E1 in OK'. destruct (IH _ its1 W1 R1 C1 A1 OK') as (its' & R' & C' & A' & W' & E').
-    exists its'. repeat split; auto. rewrite E', E1. reflexivity.
+    exists its'. repeat split; auto; try apply W'. rewrite E', E1. reflexivity.
 Qed.
 
 Theorem history_dict_refines : forall h st its,
@@ -265,11 +257,11 @@ Qed.
 
 (* in terms of the erasure of the whole container *)
 Corollary history_list_erase : forall h st its,
-  wfs st -> at_is st ps tid KList pa fl its -> clean its -> anc_clean st ps -> lhist_ok fl (evals its) h ->
+  WFI st -> at_is st ps tid KList pa fl its -> clean its -> anc_clean st ps -> lhist_ok fl (evals its) h ->
   option_map erase (get_at (run_ops q st (on_pos ps h)) ps) = Some (plist (lhist_py (evals its) h)).
 Proof.
   intros. destruct (history_list_refines h st its H H0 H1 H2 H3) as (its' & R' & C' & A' & W' & E').
-  rewrite R'. simpl. f_equal. rewrite <- E'. eapply erase_list_at; eauto.
+  rewrite R'. simpl. f_equal. rewrite <- E'. eapply erase_list_at; eauto. apply W'.
 Qed.
 Corollary history_dict_erase : forall h st its,
   wfs st -> at_is st ps tid KDict pa fl its -> clean its -> anc_clean st ps -> dhist_ok fl (eitems its) h ->
